@@ -478,6 +478,6 @@ CLAIM = {
             "abstractly on two-minute chunks with two orders, on one-candle chunks with two / three orders in both storage orders "
             "and a reaction order, and - through _simulate_new_candles - on chunks with a gap inside: exactly the touched orders "
             "fill, once, at their own price. "
-            "Not decided: exact fill minute inside fast-mode chunks (C12), k>3 simultaneous orders.",
+            "Not decided: exact fill minute inside fast-mode chunks (C12), k>3 simultaneous orders. A MARKET order queued by a fill hook during the flush of the pending market orders is executed by that same flush (R6b).",
     "note": "Trusted: interpreter = CPython semantics on the subset; mode predicates fixed to backtest; the mini sessions are finite samples of session shapes (the per-minute matching itself is exhaustive).",
 }
